@@ -514,6 +514,12 @@ func mkBin(op Op, a, b *Term) *Term {
 		if b.isConst() && a.op == OAdd && a.a[1].isConst() {
 			return mkBin(OAdd, a.a[0], mkConst(w, a.a[1].c+b.c))
 		}
+		// a small ite-tree of constants plus a constant stays an ite-tree of constants (string indices etc.)
+		if b.isConst() && a.op == OIte {
+			if _, ok := iteLeaves(a); ok {
+				return mkIte(a.a[0], mkBin(OAdd, a.a[1], b), mkBin(OAdd, a.a[2], b))
+			}
+		}
 	case OSub:
 		if b.isConst() && b.c == 0 {
 			return a
